@@ -19,7 +19,11 @@ CHECKS = {
             TB + "; holds together with C02's rules; derived code per catalogue entry", "§5 C03"),
 }
 
-NOT_YET = {p: 'check not yet built in this revision of /verif (construction order in DESIGN.md §8); will be claimed when its rule set is armed' for p in ['C%02d' % i for i in range(4, 21)]}
+CHECKS["C04"] = ("proof", "provenance terms over MIR: each location is tied to the iterator step / input its value came from",
+                 "For all inputs: every child call's location is push_key/push_index of the container's own location with the key/index of the very iterator step that produced the child's value (enumerate counter; constant ordinal in unrolled code), hand-overs are located where the error came from, reports about the container are at its own location (tag kind error at push_key(tag)), and ErrorKind payload fields are the values found there; push_key/push_index build the right pointer variant.",
+                 TB + "; derived code per catalogue entry", "§5 C04")
+
+NOT_YET = {p: 'check not yet built in this revision of /verif (construction order in DESIGN.md §8); will be claimed when its rule set is armed' for p in ['C%02d' % i for i in range(5, 21)]}
 
 
 def main():
